@@ -110,9 +110,16 @@ def _match(p, n, b: Dict[str, ast.AST]) -> bool:
     return True
 
 
+class Bindings(dict):
+    """Metavariable bindings of a successful match; truthy even when empty."""
+
+    def __bool__(self):
+        return True
+
+
 def match(pattern, node: ast.AST) -> Optional[Dict[str, ast.AST]]:
     p = P(pattern) if isinstance(pattern, str) else pattern
-    b: Dict[str, ast.AST] = {}
+    b: Dict[str, ast.AST] = Bindings()
     if _match(p, node, b):
         return b
     return None
@@ -123,7 +130,7 @@ def find(pattern, root: ast.AST) -> List[Tuple[ast.AST, Dict[str, ast.AST]]]:
     out = []
     for n in ast.walk(root):
         if type(n) is type(p) or _mv(p) is not None:
-            b: Dict[str, ast.AST] = {}
+            b: Dict[str, ast.AST] = Bindings()
             if _match(p, n, b):
                 out.append((n, b))
     return out
